@@ -55,6 +55,7 @@ type rewriter struct {
 	opts    *Options
 	relFile string
 	lhs     map[ast.Expr]bool
+	funcLits []*ast.FuncLit // enclosing function literals during the walk
 }
 
 // Run instruments the tree and writes overlay.json into OutDir; returns its path.
@@ -262,6 +263,9 @@ func (rw *rewriter) file(f *ast.File, constSet map[string]bool) error {
 		rw.constToVar(f, constSet)
 	}
 	pre := func(c *astutil.Cursor) bool {
+		if fl, ok := c.Node().(*ast.FuncLit); ok {
+			rw.funcLits = append(rw.funcLits, fl)
+		}
 		switch n := c.Node().(type) {
 		case *ast.SelectStmt:
 			for _, cl := range n.Body.List {
@@ -288,7 +292,14 @@ func (rw *rewriter) file(f *ast.File, constSet map[string]bool) error {
 		if ferr != nil {
 			return false
 		}
+		if fl, ok := c.Node().(*ast.FuncLit); ok && len(rw.funcLits) > 0 && rw.funcLits[len(rw.funcLits)-1] == fl {
+			rw.funcLits = rw.funcLits[:len(rw.funcLits)-1]
+		}
 		switch n := c.Node().(type) {
+		case *ast.Ident:
+			if rep := rw.identHook(n, c); rep != nil {
+				c.Replace(rep)
+			}
 		case *ast.GoStmt:
 			c.Replace(rw.goStmt(n))
 		case *ast.SendStmt:
@@ -497,6 +508,73 @@ func (rw *rewriter) fieldHook(n *ast.SelectorExpr, c *astutil.Cursor) ast.Expr {
 	call := rw.call(fn, addr, rw.site(n, exprText(rw.fset, n)))
 	out := &ast.ParenExpr{X: &ast.StarExpr{X: call}}
 	rw.typeOv[out] = t
+	return out
+}
+
+// identHook instruments accesses to multi-word variables that more than one goroutine can reach
+// without passing them: package-level variables and variables captured by a function literal
+// (a local hoisted out of a callback becomes shared between the goroutines that run the callback).
+func (rw *rewriter) identHook(n *ast.Ident, c *astutil.Cursor) ast.Expr {
+	v, ok := rw.info.Uses[n].(*types.Var)
+	if !ok || v.IsField() || v.Pkg() == nil || v.Pkg() != rw.pkg.Types {
+		return nil
+	}
+	switch u := v.Type().Underlying().(type) {
+	case *types.Slice, *types.Interface:
+	case *types.Basic:
+		if u.Info()&types.IsString == 0 {
+			return nil
+		}
+	default:
+		return nil
+	}
+	shared := v.Parent() == rw.pkg.Types.Scope()
+	if !shared && len(rw.funcLits) > 0 {
+		fl := rw.funcLits[len(rw.funcLits)-1]
+		shared = v.Pos() < fl.Pos() || v.Pos() > fl.End()
+	}
+	if !shared {
+		return nil
+	}
+	switch p := c.Parent().(type) {
+	case *ast.UnaryExpr:
+		if p.Op == token.AND {
+			return nil
+		}
+	case *ast.KeyValueExpr:
+		if p.Key == n {
+			return nil
+		}
+	case *ast.SelectorExpr:
+		if p.Sel == n {
+			return nil
+		}
+	case *ast.AssignStmt:
+		if p.Tok == token.DEFINE {
+			for _, l := range p.Lhs {
+				if l == n {
+					return nil
+				}
+			}
+		}
+	case *ast.RangeStmt:
+		if p.Key == n || p.Value == n {
+			return nil
+		}
+	case *ast.Field, *ast.ValueSpec, *ast.LabeledStmt, *ast.BranchStmt:
+		return nil
+	}
+	fn := "Rd"
+	if rw.lhs[n] {
+		fn = "Wr"
+		rw.counts["shared-var-write"]++
+	} else {
+		rw.counts["shared-var-read"]++
+	}
+	addr := &ast.UnaryExpr{Op: token.AND, X: n}
+	call := rw.call(fn, addr, rw.site(n, n.Name))
+	out := &ast.ParenExpr{X: &ast.StarExpr{X: call}}
+	rw.typeOv[out] = v.Type()
 	return out
 }
 
